@@ -721,6 +721,35 @@ def gen_flags(rng, n):
         yield dict(c, flagform='np' if k % 2 else 'int')
 
 
+def gen_deepen(rng, n):
+    """entry points and helpers moved into the model by the deepen work item: helper.mesh itself, spider, the complex
+    refusal of rebin, sanitize_shape in every argument form, slice_offset on the Ellipsis forms, flatten=True"""
+    for k in range(n):
+        u = k % 8
+        shape = [rng.randint(1, 14), rng.randint(1, 14)]
+        if u in (0, 1):
+            yield {'op': 'mesh', 'shape': shape, 'shift': rnd_shift(rng), 'angle': rng.choice(ANGLES),
+                   'd': [rng.randint(-3, 3), rng.randint(-3, 3)], 'argform': rng.choice(['list', 'array', None])}
+        elif u in (2, 3, 4):
+            yield {'op': 'spider', 'shape': [rng.randint(4, 16), rng.randint(4, 16)], 'width': dy(rng, 0, 4),
+                   'angle': rng.choice(ANGLES), 'shift': rnd_shift(rng), 'aa': rng.random() < 0.5,
+                   'd': [rng.randint(-2, 2), rng.randint(-2, 2)]}
+        elif u == 5:
+            f = rng.randint(1, 3)
+            n_, m_ = f * rng.randint(1, 3), f * rng.randint(1, 3)
+            a = [rnd_arr(rng, n_, m_) for _ in range(2)] if rng.random() < 0.4 else rnd_arr(rng, n_, m_)
+            yield {'op': 'rebin', 'a': a, 'f': f, 'complex': rng.choice(['real-valued', 'complex'])}
+        elif u == 6:
+            form = rng.choice(['int', 'array0', 'list', 'tuple', 'array'])
+            arg = rng.randint(0, 9) if form in ('int', 'array0') else [rng.randint(0, 9) for _ in range(rng.choice([0, 2, 2, 3]))]
+            yield {'op': 'sanitize', 'arg': arg, 'form': form}
+        else:
+            yield {'op': 'soff_ellform', 'form': rng.choice(['bare', 'all', 'index', 'range']),
+                   'shape': [rng.randint(1, 9), rng.randint(1, 9)]}
+    for c in gen_hexseg(rng, max(3, n // 25), 2):
+        yield dict(c, flatten=True)
+
+
 def cube_of(d, n, m, base=1):
     return [[[base + (k * n + i) * m + j for j in range(m)] for i in range(n)] for k in range(d)]
 
@@ -767,6 +796,7 @@ def generate(rng, tier):
         yield from gen_layouts(rng, 231)
         yield from gen_containers(rng, 200)
         yield from gen_flags(rng, 36)
+        yield from gen_deepen(rng, 120)
         yield from gen_shapes(rng, 150, 16)
         yield from gen_histories(rng, 40, 20)
         yield from gen_hexseg(rng, 14, 3)
@@ -778,6 +808,7 @@ def generate(rng, tier):
         yield from gen_layouts(rng, 2310)
         yield from gen_containers(rng, 2000)
         yield from gen_flags(rng, 300)
+        yield from gen_deepen(rng, 1200)
         yield from gen_window_cubes_exhaustive()
         yield from gen_shapes(rng, 900, 24)
         yield from gen_histories(rng, 300, 24)
@@ -846,10 +877,28 @@ def encode(c):
         return [8] + list(c['shape'])
     if op == 'centroid':
         return [9] + enc_arr(c['a'])
+    if op == 'rebin' and c.get('complex'):
+        if is3(c['a']):
+            return [28, 1] + enc_cube(c['a']) + [c['f']]
+        return [27, 1] + enc_arr(c['a']) + [c['f']]
     if op == 'rebin':
         if is3(c['a']):
             return [11] + enc_cube(c['a']) + [c['f']]
         return [10] + enc_arr(c['a']) + [c['f']]
+    if op == 'mesh':
+        co, si = rot_params(c['angle'])
+        return [25] + list(c['shape']) + C.enc_q(Fraction(c['shift'][0])) + C.enc_q(Fraction(c['shift'][1])) + \
+            C.enc_q(co) + C.enc_q(si)
+    if op == 'spider':
+        co, si = rot_params(c['angle'])
+        return [26] + list(c['shape']) + C.enc_q(Fraction(c['width'])) + C.enc_q(float(np.sqrt(2))) + \
+            C.enc_q(Fraction(c['shift'][0])) + C.enc_q(Fraction(c['shift'][1])) + C.enc_q(co) + C.enc_q(si) + [int(c['aa'])]
+    if op == 'sanitize':
+        if c['form'] in ('int', 'array0'):
+            return [29, 0, c['arg']]
+        return [29, 1, len(c['arg'])] + list(c['arg'])
+    if op == 'soff_ellform':
+        return [30, {'bare': 0, 'all': 1}.get(c['form'], 2)]
     if op in ('circle', 'rect', 'hexagon'):
         return [{'circle': 20, 'rect': 21, 'hexagon': 22}[op]] + list(c['shape']) + enc_draw(c)
     if op == 'shist':
@@ -917,6 +966,14 @@ def decode(c, ints):
         return {'rc': [rd.q(), rd.q()]}
     if op in ('circle', 'rect', 'hexagon'):
         return {'arr': flt(read_arrq(rd))}
+    if op == 'mesh':
+        return {'r': flt(read_arrq(rd)), 'c': flt(read_arrq(rd))}
+    if op == 'spider':
+        return {'arr': flt(read_arrq(rd))}
+    if op == 'sanitize':
+        return {'shape': rd.lst(rd.z)}
+    if op == 'soff_ellform':
+        return {'offset': [rd.z(), rd.z()]}
     if op == 'shist':
         return {'arrs': rd.lst(lambda: flt(read_arrq(rd)))}
     if op == 'hexseg':
@@ -974,6 +1031,34 @@ def run_impl(c):
             a = mk_input(c)
             r, cc = lentil.centroid(a)
             return {'rc': [float(r), float(cc)], 'mutated': not unchanged(a, c)}
+        if op == 'rebin' and c.get('complex'):
+            res = lentil.rebin(nparr(c['a']).astype(complex) * (1 + 0j if c['complex'] == 'real-valued' else 1 + 1j),
+                               c['f'])
+            return {'arr': np.asarray(res).real.tolist(), 'shape': list(res.shape)}
+        if op == 'mesh':
+            sh = (float(Fraction(c['shift'][0])), float(Fraction(c['shift'][1])))
+            r, q = lentil.helper.mesh(seq_arg(c, c['shape']), sh, float(Fraction(c['angle'])))
+            r2, q2 = lentil.helper.mesh(seq_arg(c, c['shape']), (sh[0] + c['d'][0], sh[1] + c['d'][1]),
+                                        float(Fraction(c['angle'])))
+            return {'r': tolist(r), 'c': tolist(q), 'r_shift': tolist(r2), 'c_shift': tolist(q2)}
+        if op == 'spider':
+            sh = (float(Fraction(c['shift'][0])), float(Fraction(c['shift'][1])))
+            kw = dict(angle=float(Fraction(c['angle'])), antialias=flag(c, c['aa']))
+            w = float(Fraction(c['width']))
+            a = lentil.spider(tuple(c['shape']), w, shift=sh, **kw)
+            b = lentil.spider(tuple(c['shape']), w, shift=(sh[0] + c['d'][0], sh[1] + c['d'][1]), **kw)
+            ln, sh2 = spider_arm(c, sh)
+            arm = lentil.rectangle(tuple(c['shape']), ln, w, shift=sh2, **kw)
+            return {'arr': tolist(a), 'arr_shift': tolist(b), 'arm': tolist(arm)}
+        if op == 'sanitize':
+            arg = {'int': lambda v: int(v), 'array0': lambda v: np.array(v), 'list': list, 'tuple': tuple,
+                   'array': lambda v: np.array(v, dtype=int)}[c['form']](c['arg'])
+            return {'shape': [int(v) for v in lentil.util.sanitize_shape(arg)]}
+        if op == 'soff_ellform':
+            sl = {'bare': Ellipsis, 'all': (Ellipsis, slice(None, None, None)), 'index': (Ellipsis, 2),
+                  'range': (Ellipsis, slice(2, 4, None))}[c['form']]
+            off = lentil.helper.slice_offset(sl, tuple(c['shape']))
+            return {'offset': [int(off[0]), int(off[1])]}
         if op == 'rebin':
             a = mk_input(c)
             res = lentil.rebin(a, c['f'])
@@ -991,6 +1076,10 @@ def run_impl(c):
             m = np.asarray(lentil.hex_segments(antialias=flag(c, c['aa']), **kw), dtype=float)
             mb = m if not c['aa'] else np.asarray(lentil.hex_segments(antialias=flag(c, False), **kw), dtype=float)
             out = {'shape': list(m.shape), '_mask': Blob(m)}
+            if c.get('flatten') and m.ndim == 3:
+                kwf = dict(kw, flatten=flag(c, True))
+                fl = np.asarray(lentil.hex_segments(antialias=flag(c, c['aa']), **kwf), dtype=float)
+                out['flatten_ok'] = bool(fl.shape == m.shape[1:] and np.array_equal(fl, m.sum(axis=0)))
             if mb.ndim == 3 and mb.shape[0]:
                 cover = mb.sum(axis=0)
                 out['overlap'] = int((cover > 1).sum())
@@ -1074,6 +1163,15 @@ def overlap_depth(c, mb, cover):
     return float(worst)
 
 
+def spider_arm(c, sh):
+    """length and shifted centre of the rectangle lentil.spider subtracts from 1, computed as the code does"""
+    n, m = c['shape']
+    ln = np.sqrt(2) * np.max((n, m)) / 2
+    dist = ln / 2
+    ang = np.deg2rad(float(Fraction(c['angle'])))
+    return ln, (sh[0] + -dist * np.sin(ang), sh[1] + dist * np.cos(ang))
+
+
 class Blob:
     """keeps a big array out of evidence / replay files"""
     def __init__(self, a):
@@ -1103,6 +1201,9 @@ def edge_margin(c, shape, sh):
     op = c['op']
     if op == 'circle':
         return np.abs(float(Fraction(c['radius'])) + 0.5 - np.sqrt(rr ** 2 + cc ** 2))
+    if op == 'spider':
+        ln, sh2 = spider_arm(c, sh)
+        return edge_margin({'op': 'rect', 'width': Fraction(ln), 'height': c['width'], 'angle': c['angle']}, shape, sh2)
     if op == 'rect':
         co, si = rot_params(c['angle'])
         r = rr * co + cc * si
@@ -1161,6 +1262,21 @@ def compare(c, impl, model):
     if op in ('circle', 'rect', 'hexagon'):
         msg = cmp_draw(c, impl['arr'], model['arr'])
         return None if msg is None else f'{op}: impl vs model: {msg}'
+    if op == 'mesh':
+        exact = Fraction(c['angle']) == 0
+        for key in ('r', 'c'):
+            msg = close_arrays(impl[key], model[key], True, None, 0.0 if exact else 1e-12)
+            if msg:
+                return f'mesh: grid {key}: impl vs model: {msg}'
+        return None
+    if op == 'spider':
+        sh = (float(Fraction(c['shift'][0])), float(Fraction(c['shift'][1])))
+        msg = close_arrays(impl['arr'], model['arr'], c['aa'], edge_margin(c, c['shape'], sh))
+        return None if msg is None else f'spider: impl vs model: {msg}'
+    if op == 'sanitize':
+        return None if impl['shape'] == model['shape'] else f'sanitize_shape: impl {impl["shape"]} model {model["shape"]}'
+    if op == 'soff_ellform':
+        return None if impl['offset'] == model['offset'] else f'slice_offset: impl {impl["offset"]} model {model["offset"]}'
     if op == 'shist':
         if len(model['arrs']) != len(c['draws']):
             return 'history: model returned a different number of drawings'
@@ -1230,6 +1346,10 @@ def oracle(c, impl):
         return f'{op} modified the array it was given'
     if op == 'shist':
         return history_oracle(c, impl)
+    if op == 'rebin' and c.get('complex'):
+        return None if impl.get('err') == 'ValueError' else f'rebin of complex data was not refused with ValueError: {str(impl)[:80]}'
+    if op in ('mesh', 'spider', 'sanitize', 'soff_ellform'):
+        return deepen_oracle(c, impl)
     if op == 'pad':
         if 'err' in impl:
             return f'pad raised {impl["err"]}'
@@ -1467,6 +1587,63 @@ def shape_oracle(c, impl):
     return None
 
 
+def deepen_oracle(c, impl):
+    op = c['op']
+    if op == 'soff_ellform':
+        if c['form'] in ('bare', 'all'):
+            return None if impl.get('offset') == [0, 0] else f'slice_offset({c["form"]} Ellipsis form) is not (0, 0): {impl}'
+        return None if impl.get('err') == 'ValueError' else \
+            f'slice_offset of a tuple with an Ellipsis it cannot interpret was not refused with ValueError: {impl}'
+    if 'err' in impl:
+        return f'{op} raised {impl["err"]}'
+    if op == 'sanitize':
+        a = c['arg']
+        exp = [a, a] if c['form'] in ('int', 'array0') else list(a)
+        return None if impl['shape'] == exp else f'sanitize_shape({a!r} as {c["form"]}) = {impl["shape"]}, expected {exp}'
+    n, m = c['shape']
+    if op == 'mesh':
+        r, q = impl['r'], impl['c']
+        if len(r) != n or len(r[0]) != m or len(q) != n or len(q[0]) != m:
+            return 'mesh: grids do not have the requested shape'
+        s = [Fraction(v) for v in c['shift']]
+        if all(v.denominator == 1 for v in s):
+            i0, j0 = n // 2 + int(s[0]), m // 2 + int(s[1])
+            if 0 <= i0 < n and 0 <= j0 < m and (r[i0][j0] != 0 or q[i0][j0] != 0):
+                return f'mesh: coordinates at the origin sample + shift ({i0},{j0}) are ({r[i0][j0]!r}, {q[i0][j0]!r}), not 0'
+        d0, d1 = c['d']
+        for i in range(n):
+            for j in range(m):
+                if 0 <= i + d0 < n and 0 <= j + d1 < m and \
+                        (impl['r_shift'][i + d0][j + d1] != r[i][j] or impl['c_shift'][i + d0][j + d1] != q[i][j]):
+                    return f'mesh: shifting by {c["d"]} does not move the grid by {c["d"]} samples (at ({i},{j}))'
+                if s == [0, 0]:
+                    i2, j2 = 2 * (n // 2) - i, 2 * (m // 2) - j
+                    if 0 <= i2 < n and 0 <= j2 < m and (r[i2][j2] != -r[i][j] or q[i2][j2] != -q[i][j]):
+                        return f'mesh: not odd under the half-turn about the origin sample: ({i},{j}) vs ({i2},{j2})'
+        return None
+    a, b, arm = impl['arr'], impl['arr_shift'], impl['arm']
+    sh = (float(Fraction(c['shift'][0])), float(Fraction(c['shift'][1])))
+    mg = edge_margin(c, c['shape'], sh)
+    d0, d1 = c['d']
+    mg2 = edge_margin(c, c['shape'], (sh[0] + d0, sh[1] + d1))
+    for i in range(n):
+        for j in range(m):
+            v = a[i][j]
+            if not (0.0 <= v <= 1.0):
+                return f'spider: value {v!r} at ({i},{j}) outside [0, 1]'
+            if not c['aa'] and v not in (0.0, 1.0):
+                return f'spider: non-binary value {v!r} at ({i},{j}) without antialiasing'
+            if v != 1 - arm[i][j]:
+                return f'spider: sample ({i},{j}) = {v!r} is not 1 - rectangle(len, width, shifted centre) = {1 - arm[i][j]!r}'
+            if 0 <= i + d0 < n and 0 <= j + d1 < m:
+                w = b[i + d0][j + d1]
+                # the shifted centre is (shift + d) + offset in floats: 1 ulp from (shift + offset) + d
+                ok = abs(w - v) <= 1e-12 if c['aa'] else (w == v or mg[i][j] <= 1e-9 or mg2[i + d0][j + d1] <= 1e-9)
+                if not ok:
+                    return f'spider: shifting by {c["d"]} does not translate the drawing: ({i},{j}) = {v!r}, shifted = {w!r}'
+    return None
+
+
 def history_oracle(c, impl):
     if 'err' in impl:
         return f'drawing history raised {impl["err"]}'
@@ -1526,6 +1703,8 @@ def hexseg_oracle(c, impl):
         return 'hex_segments values outside [0, 1]'
     if not impl['binary']:
         return 'hex_segments masks without antialiasing are not binary'
+    if impl.get('flatten_ok') is False:
+        return 'hex_segments(flatten=True) is not the sum of the segment masks'
     if impl['overlap'] > 0:
         return (f'{impl["overlap"]} samples are covered by more than one non-antialiased segment mask '
                 f'(seg_gap = {c["gap"]})')
